@@ -12,6 +12,7 @@
     EXPAND <ast form>                              -> monomials: coef ; (id pow)*
     SAMPLES n nm <monomials as in TERMS> <tree form> lq q* nk (key bits (lq) count)*  -> symbolicScaled ; denseScaled ; specScaled
     TFIM n h | ONE n <8 ints>                      -> dense builder ; dense(form)
+    HEIS n Jx Jy Jz hx hy hz (integers)            -> dense Heisenberg builder ; dense(Heisenberg form)
     HIST n ns (N <ast form> | T i | A i j | B i j | M i j | K re im i | PA re im i | PS re im i | RS re im i)* <psi>
                                                    -> per object: constant ; h @ psi   (objects joined by |), once without and
                                                       once with term reuse (joined by ||): the algebra over call histories (QV/Model/HamilAlg.lean)
@@ -238,6 +239,20 @@ def handle : P String := do
     -- SPEC: Σ count · ⟨x_key| H |x_key⟩ with the label read through the map
     let c := freq.foldl (fun acc kc => acc + diag (Lab.toIndex n (keyLabel qm kc.1)) * kc.2) (0 : GI)
     pure s!"{a.toStr} ; {b.toStr} ; {c.toStr}"
+  | "HEIS" =>
+    let n ← nextNat
+    let jx ← nextInt
+    let jy ← nextInt
+    let jz ← nextInt
+    let hx ← nextInt
+    let hy ← nextInt
+    let hz ← nextInt
+    let pY : Nat → Nat → GI := fun i j => if i = 0 ∧ j = 1 then ⟨0, -1⟩ else if i = 1 ∧ j = 0 then ⟨0, 1⟩ else 0
+    let mk (J h : Int) (m : Nat → Nat → GI) : HComp GI := { J := ⟨J, 0⟩, h := ⟨h, 0⟩, keep := h != 0, mat := m }
+    let cs := [mk jx hx pauliX, mk jy hy pY, mk jz hz pauliZ]
+    let A := tableOf2 n (heisDense n cs)
+    let B := denseT n (heisForm n cs)
+    pure s!"{showGIs A} ; {showGIs B}"
   | "HIST" =>
     let n ← nextNat
     let ns ← nextNat
